@@ -216,7 +216,7 @@ class UnSSADiGraph(object):
         @parent: Optional parent location of the phi source
         """
         loc_key_b, index_b = self.var_to_varinfo[node_b].loc_key, self.var_to_varinfo[node_b].index
-        if parent and index_b is None:
+        if index_b is None:
             index_b = 0
         if node_a not in self.new_var_to_srcs_parents:
             # node_a is not a new var (it is a "classic" var)
